@@ -59,7 +59,10 @@ func runSliceOwnBounds(p *core.Program, r *core.Report) {
 			var out cmpInfo
 			core.Instrs(fn, func(ins ssa.Instruction) {
 				b, ok := ins.(*ssa.BinOp)
-				if !ok || !ins.Block().Dominates(blk) {
+				// the comparison decides whether the delegation is reached: its
+				// block dominates it, or (a tagless switch case `a || b` is
+				// evaluated as a value through a phi) at least lies before it
+				if !ok || !(ins.Block().Dominates(blk) || (ins.Block() != blk && blockReaches(ins.Block(), blk))) {
 					return
 				}
 				switch b.Op {
